@@ -19,7 +19,7 @@ def build():
 
     def e1(fn, props, harness=HP, replace=(), unwind=None, loop=False, timeout=300, mem=8, tier="quick",
            defs=(), note="", name=None, extra=(), expect_fail=()):
-        args = []
+        args = ["--slice-formula"]
         if unwind:
             args += ["--unwind", str(unwind), "--unwinding-assertions"]
         args += list(extra)
@@ -92,6 +92,37 @@ def build():
     for fn in ("binson_writer_init", "binson_writer_reset", "binson_writer_get_counter"):
         e1(fn, {"C04": "*", "C09": "*", "C12": "*", "C18": "*"}, harness=HW)
 
+    # ---- print callbacks (C13 / C14 / C16), abstract snprintf/printf stand-ins
+    e1("_binson_to_string_cb", {"C13": "*", "C16": "*", "C17": "*", "C18": "*"}, harness="contracts/h_printcb.c", loop=True,
+       defs=["BINSON_PARSER_WITH_PRINT"], replace=["_check_boundary"], timeout=3600, mem=10,
+       note="snprintf under the assumed C99 contract (stubs/vc_stdio_abs.h); hex loop closed by its loop invariant and decreases clause")
+    e1("_binson_print_cb", {"C14": "*", "C16": "*", "C17": "*", "C18": "*"}, harness="contracts/h_printcb.c", loop=True,
+       defs=["BINSON_PARSER_WITH_PRINT"], timeout=1800, mem=8,
+       note="printf abstracted to an event counter; hex loop closed by its loop invariant and decreases clause")
+
+    J.append(Job("E1/binson_parser_to_string/verify-summarised", "E3", "contracts/h_tostring.c", "h_binson_parser_to_string",
+                 {"C13": "*", "C18": "*"}, defs=["BINSON_PARSER_WITH_PRINT"], cc_args=["-I/verif/stubs/shim_tostring"],
+                 cbmc_args=[], timeout=900, mem_gb=4,
+                 note="real binson_parser_to_string, loop-free; binson_parser_verify-in-print-mode replaced by a summary that asserts the callback precondition and abstracts the callbacks by their proved contract (assumption: induction over tokens); COMPLETE under that summary"))
+
+    # ---- round-trip lemmas on the real encoder/decoder pair (complete: loops bounded by operand width)
+    for nm in ("parse_pack", "pack_parse", "double"):
+        J.append(Job("E1/lemma_" + nm, "E3", "contracts/h_lemmas.c", "h_lemma_" + nm, {"C05": "*", "C10": "*", "C03": "*", "C18": "*"},
+                     cbmc_args=["--unwind", "9", "--unwinding-assertions"], timeout=900, mem_gb=4,
+                     note="plain CBMC, no contracts needed: both functions are loop-bounded by the operand width, all 2^64 inputs; COMPLETE (not a bounded stand-in)"))
+
+    # ---- C18: the byte-order / char-signedness sensitive functions again under the unsigned plain-char model
+    import copy
+    for base in [x for x in J if x.name in ("E1/_cmp_name", "E1/_process_one", "E1/_parse_integer", "E1/binson_parser_string_equals",
+                                             "E1/_int_pack_size", "E1/_write_token", "E1/binson_write_string_with_len")]:
+        u = copy.copy(base)
+        u.name = base.name + "/unsigned-char"
+        u.cc_args = ["-funsigned-char"]
+        u.props = {"C18": "*"}
+        u.tier = "thorough"
+        u.note = (base.note + "; " if base.note else "") + "compiled with -funsigned-char (plain char unsigned, as on ARM)"
+        J.append(u)
+
     # ---- E4 static facts (C17)
     for tagp, defs in (("print", ["BINSON_PARSER_WITH_PRINT"]), ("noprint", [])):
         J.append(Job("E4/static-facts/" + tagp, "E4", "", "", {"C17": "*", "C16": ["S/acyclic"]}, defs=defs, timeout=120, mem_gb=2,
@@ -136,11 +167,13 @@ def build():
         pr = dict(NAV_PROPS)
         if props:
             pr.update(props)
+        if doc:
+            pr = {"C06": "*"}      # pinned shape of a listed known finding: reported under its own property only
         nm = "nav/%s/%s/N=%d%s" % ("oa"[root], seq, n, "/pinned" if doc else "")
         unw = max(9, n + 2)
         J.append(Job("E3/" + nm, "E3", "bounded/h_nav.c", "h_nav", pr, defs=defs,
                      cbmc_args=["--unwind", str(unw), "--unwinding-assertions", "--no-standard-checks"],
-                     timeout=3600, mem_gb=2 if doc else 9, tier=tier,
+                     timeout=3600, mem_gb=2 if doc else 13, tier=tier,
                      note="BOUNDED: all valid %s-rooted documents of exactly %d bytes x call sequence %s (E enter root, N next, O/A go_into_object/array, o/a leave_object/array, R get_raw, F/G/H field lookups); memory-safety checks are off in this tier (they are decided by E1/E2)" % ("array" if root else "object", n, seq)))
         if not doc:
             J.append(Job("E3/" + nm + "/feasible", "E3", "bounded/h_nav.c", "h_nav", {k: [] for k in pr}, defs=defs + ["VC_NO_LIB"],
